@@ -273,9 +273,9 @@ type selector struct {
 	// Key identifies "the selector's metric(s)": the metric name, or for a selector that picks metrics with a
 	// __name__ regexp the text of the name-only selector (`{__name__=~"foo.*"}`); Bare is that name-only selector
 	// in a form the engine accepts.
-	Key  string
-	Bare string
-	Name []*labels.Matcher // the __name__ matchers
+	Key    string
+	Bare   string
+	Name   []*labels.Matcher // the __name__ matchers
 	Ranges [][2]int
 	Match  []*labels.Matcher // including __name__
 	// JoinDepth: how many times the path from the root enters the "other" side of a vector-to-vector binary
@@ -677,7 +677,7 @@ func check(c Case) (out outcome, err error) {
 			}
 			present[s.Text] = n > 0
 			if len(s.Name) > 0 {
-				n, err = promsrv.InstantCount(db, fmt.Sprintf("count_over_time(%s[%s])", s.Bare, window), at)
+				n, err = promsrv.InstantCount(db, fmt.Sprintf("last_over_time(%s[%s])", s.Bare, window), at)
 				if err != nil {
 					return nil, nil, err
 				}
@@ -949,7 +949,7 @@ func genSelector(t *rapid.T, lbl string) selSpec {
 	s.nameForm = rapid.IntRange(0, 9).Draw(t, lbl+".nameForm") == 0
 	// a share of selectors pick their metric(s) with a __name__ regexp: a prefix pattern or an alternation over
 	// the vocabulary, or a pattern that matches no metric of the database at all
-	if rapid.IntRange(0, 3).Draw(t, lbl+".nameRegexp") == 0 {
+	if rapid.IntRange(0, 2).Draw(t, lbl+".nameRegexp") == 0 {
 		other := rapid.SampledFrom(metrics).Draw(t, lbl+".nameRe.other")
 		s.nameRe = rapid.SampledFrom([]string{
 			s.metric + ".*", s.metric + "|" + other, s.metric + "|nosuch", s.metric[:2] + ".", "nosuch.*", "nosuch|missing_.+",
